@@ -105,15 +105,16 @@ func (l *Links) Fate(p *OutPkt) []Delivery {
 		delay += time.Duration(s.Tape.Range(stream, 1, c.ReorderUs)) * time.Microsecond
 		s.Stats.Fault("reorder-delay")
 	}
+	var abs time.Duration
 	if c.FIFO {
-		arr := p.At + delay
-		if last := l.lastArr[key]; arr <= last {
-			arr = last + time.Microsecond
-			delay = arr - p.At
+		// absolute arrival instant, strictly increasing per direction
+		abs = s.Now() + delay + s.residue()
+		if last := l.lastArr[key]; abs <= last {
+			abs = last + 53*time.Nanosecond
 		}
-		l.lastArr[key] = p.At + delay
+		l.lastArr[key] = abs
 	}
-	ds := []Delivery{{Delay: delay}}
+	ds := []Delivery{{Delay: delay, AtAbs: abs}}
 	if !healed && s.Tape.Chance(stream, c.DupPM) {
 		n := 1 + s.Tape.Choose(stream, 2)
 		for i := 0; i < n; i++ {
